@@ -57,6 +57,9 @@ int sqfs_xattr_writer_add_kv(sqfs_xattr_writer_t *xwr, const char *key,
 	if (sqfs_get_xattr_prefix_id(key) < 0)
 		return SQFS_ERROR_UNSUPPORTED;
 
+	if (strlen(key) > 0xFFFF)
+		return SQFS_ERROR_OVERFLOW;
+
 	err = str_table_get_index(&xwr->keys, key, &key_index);
 	if (err)
 		return err;
